@@ -123,12 +123,7 @@ package align
 
 // Consensus: a new one-row alignment whose row is the slice MaxCharStats allocates; the input is only read.
 // (On an alignment without rows MaxCharStats panics in make([]uint8, -1): known finding of MaxCharStats, `maypanic` there.)
-//@ func (*align).Consensus
-//@   props C19
-//@   requires wfa(a)
-//@   ensures cons != nil && fresh(cons) && wfa(cons) && nrows(cons) == 1 && rowname(cons, 0) == "consensus" && cons.alphabet == a.alphabet
-//@   ensures cons.length == (a.length < 0 ? 0 : a.length) && fresh(row(cons, 0)) && fresh(row(cons, 0).sequence)
-//@   modifies nothing
+// (*align).Consensus: see zz_contracts_c14b_verif.go (props C14 C19; same clauses plus the content of the row)
 
 // ---- ORF search ----
 
